@@ -114,6 +114,53 @@ def exec_walk(case):
     return Outcome(classes=classes, nontrivial=nt, info=info)
 
 
+def exec_walk_real(case):
+    """the same oracle on REAL multiprocessing (validates Engine A's model on samples)"""
+    import os
+    from ..core import fresh_dir
+    from ..realmp import FileRecorder, watchdog, WatchdogExpired, reap_children
+    import multiprocessing as mp
+
+    ref = scen.ref_of(case)
+    k = case["k"]
+    with fresh_dir("c01r-") as d:
+        rec = FileRecorder(os.path.join(d, "log"))
+        status, exc, hang = "returned", None, None
+        try:
+            with watchdog(45):
+                scen.make_pyramid(case).walk(rec.walk_cb, parallel=k)
+        except WatchdogExpired:
+            # a wall clock alone is never a verdict: it is a hang only if no process is left that could
+            # ever report a completion (every worker has exited while the caller still waits)
+            if any(c.is_alive() for c in mp.active_children()):
+                reap_children(1)
+                return Outcome(classes=["realmp", "watchdog-inconclusive"], nontrivial=False)
+            status, hang = "hang", "real walk still waiting after 45 s although every worker process has exited"
+        except Exception as e:  # noqa
+            status, exc = "raised", e
+        left = [c for c in mp.active_children() if c.is_alive()]
+        log = rec.log()
+        reap_children()
+        judge_walk(case, ref, log, status, hang, exc=exc)
+        if status == "returned" and left:
+            raise Violation("returns", f"walk returned while {len(left)} worker processes were still running; case {case}")
+    cls = ["realmp", case["kind"], f"depth{case['depth']}", f"k{k}"]
+    if len(set(e[2] for e in log)) > 1:
+        cls.append("multi-worker")
+    gap = case["kind"] == "filtered" and gens.filter_has_gap(case["filter"], case["depth"])
+    apex = case.get("apex")
+    return Outcome(classes=cls, nontrivial=bool(ref.ops) and (len(ref.ops) >= 2 or gap or (apex is not None and apex[0] >= 1)), info={"ops": len(ref.ops)})
+
+
+@st.composite
+def strat_walk_real(draw, tier):
+    case = draw(scen.pyramid_cases(3, with_k=False, min_depth=2))
+    if case.get("apex") is not None and case["apex"][0] > 1:
+        case["apex"] = [1, case["apex"][1] % 2, case["apex"][2] % 2]
+    case["k"] = draw(st.sampled_from([2, 3, 4]))
+    return case
+
+
 def strat_walk(tier):
     return scen.pyramid_cases(4 if tier == "quick" else 6)
 
@@ -169,3 +216,20 @@ PARTS = [
     ),
 ]
 PARTS[1].exhaustive_tiers = {"thorough"}
+PARTS.append(
+    Part(
+        "walk_realmp",
+        exec_walk_real,
+        strategy=strat_walk_real,
+        examples={"quick": 48, "thorough": 600},
+        shards={"quick": 8, "thorough": 16},
+        budget_s={"quick": 70, "thorough": 1500},
+        shrink=False,
+        engine="R (real multiprocessing, callbacks log to an O_APPEND file)",
+        describe="the same pyramids walked on real multiprocessing with 2-4 workers; order judged from the linearised log",
+    )
+)
+
+
+def extra_coverage(cov_parts):
+    return {"traces_validated_against_impl": cov_parts.get("walk_realmp", {}).get("evaluations", 0)}
